@@ -40,8 +40,8 @@ use p3_circuit_prover::{
 use p3_field::extension::{BinomialExtensionField, QuinticTrinomialExtensionField};
 use p3_field::{BasedVectorSpace, Field, PrimeCharacteristicRing};
 use p3_goldilocks::Goldilocks;
-use p3_koala_bear::{KoalaBear, default_koalabear_poseidon2_16};
-use p3_poseidon2_circuit_air::KoalaBearD4Width16;
+use p3_koala_bear::{KoalaBear, default_koalabear_poseidon2_16, default_koalabear_poseidon2_32};
+use p3_poseidon2_circuit_air::{KoalaBearD4Width16, KoalaBearD4Width32};
 use serde_json::{Value, json};
 
 use crate::rng::Rng;
@@ -64,7 +64,7 @@ pub enum Outcome {
 
 impl Outcome {
     /// the token compared with the model
-    fn verdict(&self) -> String {
+    pub(crate) fn verdict(&self) -> String {
         match self {
             Outcome::Accept => "accept".into(),
             Outcome::Meta(v) => format!("meta:{v}"),
@@ -147,6 +147,8 @@ pub struct Base {
     pub tail_tokens: Vec<u64>,
     pub verify: Rc<dyn Fn(&Value) -> Outcome>,
     pub roundtrip: Rc<dyn Fn(&Value) -> RoundTrip>,
+    /// the real `VerifierManifest::matches`: (proof JSON, manifest JSON of `c16_manifest`) → outcome
+    pub matches: Rc<dyn Fn(&Value, &Value) -> Outcome>,
     pub replay: Value,
 }
 
@@ -349,7 +351,22 @@ macro_rules! finish_base {
                     }
                     RoundTrip { checks }
                 });
-                Some(Base { cfg: $cfgname, kind, exp: $exp, registered: $registered, json, lookups, tail_tokens, verify, roundtrip, replay: spec.to_json() })
+                let matches: Rc<dyn Fn(&Value, &Value) -> Outcome> = Rc::new(move |v: &Value, man: &Value| {
+                    let parsed: Result<BatchStarkProof<$SC>, _> = serde_json::from_value(v.clone());
+                    let p = match parsed {
+                        Ok(p) => p,
+                        Err(e) => return Outcome::Deser(e.to_string().chars().take(80).collect()),
+                    };
+                    let Some(m) = crate::c16_manifest::manifest_from_json::<p3_batch_stark::Val<$SC>>(man) else {
+                        return Outcome::Deser("manifest".into());
+                    };
+                    match catch_unwind(AssertUnwindSafe(|| m.matches::<$SC>(&p))) {
+                        Ok(Ok(())) => Outcome::Accept,
+                        Ok(Err(e)) => Outcome::Meta(crate::c16_manifest::err_token(&e)),
+                        Err(pn) => Outcome::Panic(panic_msg(pn)),
+                    }
+                });
+                Some(Base { cfg: $cfgname, kind, exp: $exp, registered: $registered, json, lookups, tail_tokens, verify, roundtrip, matches, replay: spec.to_json() })
             }
             _ => None,
         }
@@ -393,33 +410,38 @@ plain_config!(base_kb5q, "kb5q", KoalaBearConfig, config::koala_bear(), KoalaBea
 plain_config!(base_gl2, "gl2", GoldilocksConfig, config::goldilocks(), Goldilocks, BinomialExtensionField<Goldilocks, 2>, 2,
     w_of::<Goldilocks, BinomialExtensionField<Goldilocks, 2>>(), false);
 
-/// KoalaBear, D = 4, with a Poseidon2 permutation table and a recompose table (two
-/// non-primitive entries in the proof's table list).
-fn base_kb4npo(spec: &Spec) -> Option<Base> {
+/// KoalaBear, D = 4, with a Poseidon2 permutation table (config `$CONFIG`) and a recompose table (two
+/// non-primitive entries in the proof's table list). The verifier also has the table prover of `$OTHER`
+/// registered (a verifier serving several circuits), so that relabelling the Poseidon entry to that
+/// config is not stopped by the unknown-op check.
+macro_rules! kb4_npo_config {
+    ($fname:ident, $cfgname:expr, $Params:ty, $enable:ident, $CONFIG:expr, $perm:expr, $OTHER:expr) => {
+fn $fname(spec: &Spec) -> Option<Base> {
     type Base_ = KoalaBear;
     type Ext4 = BinomialExtensionField<KoalaBear, 4>;
-    let perm = default_koalabear_poseidon2_16();
+    let pcfg: Poseidon2Config = $CONFIG;
+    let perm = $perm;
     let mut perm_pre = Some(perm);
     let (circuit, pubs) = gen_circuit::<Base_, Ext4>(
         spec.circuit_seed,
         &mut |b, rng, vals| {
             // a chain of 1..3 permutations fed by existing values; two outputs exposed
             let chain = rng.range(1, 3);
-            let inputs0: Vec<ExprId> = (0..4).map(|_| rng.pick(vals).0).collect();
+            let inputs0: Vec<ExprId> = (0..pcfg.width_ext()).map(|_| rng.pick(vals).0).collect();
             let mut last: Vec<Option<ExprId>> = vec![];
             for row in 0..chain {
                 let is_first = row == 0;
                 let is_last = row + 1 == chain;
-                let inputs: Vec<Option<ExprId>> = if is_first { inputs0.iter().map(|e| Some(*e)).collect() } else { vec![None; 4] };
+                let inputs: Vec<Option<ExprId>> = if is_first { inputs0.iter().map(|e| Some(*e)).collect() } else { vec![None; pcfg.width_ext()] };
                 let (_id, outs) = b
                     .add_poseidon2_perm(&Poseidon2PermCall {
-                        config: Poseidon2Config::KOALA_BEAR_D4_W16,
+                        config: pcfg,
                         new_start: is_first,
                         merkle_path: false,
                         mmcs_bit: None,
                         mmcs_bit2: None,
                         inputs,
-                        out_ctl: vec![is_last, is_last],
+                        out_ctl: vec![is_last; pcfg.rate_ext()],
                         return_all_outputs: false,
                         mmcs_index_sum: None,
                     })
@@ -441,7 +463,7 @@ fn base_kb4npo(spec: &Spec) -> Option<Base> {
             }
         },
         &mut |b| {
-            b.enable_poseidon2_perm::<KoalaBearD4Width16, _>(generate_poseidon2_trace::<Ext4, KoalaBearD4Width16>, perm_pre.take().unwrap());
+            b.$enable::<$Params, _>(generate_poseidon2_trace::<Ext4, $Params>, perm_pre.take().unwrap());
             b.enable_recompose::<Base_>(generate_recompose_trace::<Base_, Ext4>);
         },
     );
@@ -459,14 +481,119 @@ fn base_kb4npo(spec: &Spec) -> Option<Base> {
     let pd = ProverData::from_airs_and_degrees(&cfg, &airs, &degrees);
     let cpd = CircuitProverData::new(pd, prim, nonprim);
     let mut prover = BatchStarkProver::new(cfg).with_table_packing(packing);
-    prover.register_poseidon2_table::<4>(Poseidon2Config::KOALA_BEAR_D4_W16);
+    prover.register_poseidon2_table::<4>(pcfg);
     prover.register_recompose_table::<4>(false);
+    let mut registered = vec![NpoTypeId::poseidon2_perm(pcfg).as_str().to_string(), NpoTypeId::recompose().as_str().to_string()];
+    let other: Option<Poseidon2Config> = $OTHER;
+    if let Some(o) = other {
+        prover.register_poseidon2_table::<4>(o);
+        registered.push(NpoTypeId::poseidon2_perm(o).as_str().to_string());
+    }
     let exp = Expected { d: 4, w: w_of::<KoalaBear, Ext4>(), quintic: false };
-    let registered = vec![NpoTypeId::poseidon2_perm(Poseidon2Config::KOALA_BEAR_D4_W16).as_str().to_string(), NpoTypeId::recompose().as_str().to_string()];
-    finish_base!(KoalaBearConfig, Ext4, "kb4npo", spec, prover, traces, cpd, exp, registered)
+    finish_base!(KoalaBearConfig, Ext4, $cfgname, spec, prover, traces, cpd, exp, registered)
+}
+    };
 }
 
-pub const CONFIGS: &[&str] = &["bb1", "bb4", "kb1", "kb8", "kb5q", "gl2", "kb4npo"];
+kb4_npo_config!(base_kb4npo, "kb4npo", KoalaBearD4Width16, enable_poseidon2_perm, Poseidon2Config::KOALA_BEAR_D4_W16, default_koalabear_poseidon2_16(), None);
+// a second Poseidon2 config of the same family: width 32 (the W16 table prover is registered as well)
+kb4_npo_config!(base_kb4w32, "kb4w32", KoalaBearD4Width32, enable_poseidon2_perm_width_32, Poseidon2Config::KOALA_BEAR_D4_W32, default_koalabear_poseidon2_32(),
+    Some(Poseidon2Config::KOALA_BEAR_D4_W16));
+
+/// KoalaBear quintic (D = 5) with a *base-field* Poseidon2 table (`poseidon2_perm/koala_bear_d1_w16`, the
+/// configuration the recursion layer uses for D = 5) and BOTH recompose tables (`recompose`,
+/// `recompose/coeff`): three non-primitive entries, two of them in the same family. The verifier also has
+/// the `koala_bear_d4_w16` table prover registered.
+fn base_kb5qnpo(spec: &Spec) -> Option<Base> {
+    use p3_circuit::ops::poseidon2_perm::Poseidon2PermCallBase;
+    type Base_ = KoalaBear;
+    type EF5 = QuinticTrinomialExtensionField<KoalaBear>;
+    let pcfg = Poseidon2Config::KOALA_BEAR_D1_W16;
+    let mut perm_pre = Some(p3_test_utils::LiftPermToQuintic::new(default_koalabear_poseidon2_16()));
+    let (circuit, pubs) = gen_circuit::<Base_, EF5>(
+        spec.circuit_seed,
+        &mut |b, rng, vals| {
+            // 1..2 base-field permutations: limbs 0..k of the state are existing values (only their
+            // base coefficient is absorbed), outputs exposed on the last one
+            let chain = rng.range(1, 2);
+            let mut last: Vec<Option<ExprId>> = vec![];
+            for row in 0..chain {
+                let is_first = row == 0;
+                let is_last = row + 1 == chain;
+                let mut inputs: [Option<ExprId>; 16] = [None; 16];
+                if is_first {
+                    // base-field values only: constants with zero higher coefficients
+                    for slot in inputs.iter_mut().take(2 + rng.usize(3)) {
+                        let c = b.define_const(EF5::from(KoalaBear::from_u64(1 + rng.below(1 << 20))));
+                        *slot = Some(c);
+                    }
+                }
+                let (_id, outs) = b
+                    .add_poseidon2_perm_base(&Poseidon2PermCallBase {
+                        config: pcfg,
+                        new_start: is_first,
+                        inputs,
+                        out_ctl: [is_last; 8],
+                        return_all_outputs: false,
+                        absorb_len: 0,
+                    })
+                    .expect("poseidon2 base perm call");
+                last = outs.to_vec();
+            }
+            // both recompose layouts on an existing value
+            let (x, xv) = *rng.pick(vals);
+            let coeffs = b.decompose_ext_to_base_coeffs::<Base_>(x).expect("decompose");
+            let back = b.recompose_base_coeffs_to_ext::<Base_>(&coeffs).expect("recompose");
+            let back2 = b.recompose_base_coeffs_to_ext_with_coeff_lookups::<Base_>(&coeffs).expect("recompose/coeff");
+            let s1 = b.add(back, back2);
+            vals.push((s1, xv + xv));
+            if let Some(o) = last.first().copied().flatten() {
+                let zero = b.define_const(EF5::ZERO);
+                let t = b.mul_add(o, zero, s1);
+                vals.push((t, xv + xv));
+            }
+        },
+        &mut |b| {
+            b.enable_poseidon2_perm_base::<p3_circuit::ops::KoalaBearD1Width16, _>(
+                generate_poseidon2_trace::<EF5, p3_circuit::ops::KoalaBearD1Width16>,
+                perm_pre.take().unwrap(),
+            );
+            b.enable_recompose::<Base_>(generate_recompose_trace::<Base_, EF5>);
+        },
+    );
+    let packing = spec.packing();
+    let cfg = config::koala_bear();
+    let npo_prep: Vec<Box<dyn NpoPreprocessor<Base_>>> = vec![Box::new(Poseidon2Preprocessor), Box::new(RecomposePreprocessor::new(true))];
+    let mut air_builders = p3_circuit_prover::batch_stark_prover::poseidon2_air_builders_d5::<KoalaBearConfig>();
+    air_builders.extend(recompose_air_builders::<KoalaBearConfig, 5>(1, true));
+    let (airs_degrees, prim, nonprim) =
+        get_airs_and_degrees_with_prep::<KoalaBearConfig, EF5, 5>(&circuit, &packing, &npo_prep, &air_builders, ConstraintProfile::Standard).ok()?;
+    let (airs, degrees): (Vec<_>, Vec<usize>) = airs_degrees.into_iter().unzip();
+    let mut runner = circuit.runner();
+    runner.set_public_inputs(&pubs).ok()?;
+    let traces = runner.run().ok()?;
+    let pd = ProverData::from_airs_and_degrees(&cfg, &airs, &degrees);
+    let cpd = CircuitProverData::new(pd, prim, nonprim);
+    let mut prover = BatchStarkProver::new(cfg).with_table_packing(packing);
+    for p in p3_circuit_prover::batch_stark_prover::poseidon2_table_provers_d5(pcfg) {
+        prover.register_table_prover(p);
+    }
+    prover.register_recompose_table::<5>(true);
+    for p in p3_circuit_prover::batch_stark_prover::poseidon2_table_provers_d5(Poseidon2Config::KOALA_BEAR_D4_W16) {
+        prover.register_table_prover(p);
+    }
+    let exp = Expected { d: 5, w: None, quintic: true };
+    let registered = vec![
+        NpoTypeId::poseidon2_perm(pcfg).as_str().to_string(),
+        NpoTypeId::recompose().as_str().to_string(),
+        NpoTypeId::recompose_with_coeff_lookups().as_str().to_string(),
+        NpoTypeId::poseidon2_perm(Poseidon2Config::KOALA_BEAR_D4_W16).as_str().to_string(),
+    ];
+    finish_base!(KoalaBearConfig, EF5, "kb5qnpo", spec, prover, traces, cpd, exp, registered)
+}
+
+
+pub const CONFIGS: &[&str] = &["bb1", "bb4", "kb1", "kb8", "kb5q", "gl2", "kb4npo", "kb4w32", "kb5qnpo"];
 
 pub fn make_base(spec: &Spec) -> Option<Base> {
     let r = catch_unwind(AssertUnwindSafe(|| match spec.cfg.as_str() {
@@ -477,6 +604,8 @@ pub fn make_base(spec: &Spec) -> Option<Base> {
         "kb5q" => base_kb5q(spec),
         "gl2" => base_gl2(spec),
         "kb4npo" => base_kb4npo(spec),
+        "kb4w32" => base_kb4w32(spec),
+        "kb5qnpo" => base_kb5qnpo(spec),
         _ => None,
     }));
     r.ok().flatten()
@@ -569,14 +698,17 @@ pub fn meta_line(j: &Value) -> String {
 }
 
 /// Registered plug-ins with the width parameters of their AIRs: the recompose AIR is
-/// `lanes × (D main, 2 preprocessed)` columns; a Poseidon permutation AIR ignores the entry, its
+/// `lanes × (D main, 2 preprocessed)` columns, the `recompose/coeff` AIR `lanes × (D main, 2 + 2D preprocessed)`; a Poseidon permutation AIR ignores the entry, its
 /// widths are read off the honest proof (opened main row length, declared preprocessed width).
 fn plugin_tokens(b: &Base) -> Vec<String> {
     let np = b.json["non_primitives"].as_array().cloned().unwrap_or_default();
     b.registered
         .iter()
         .map(|nm| {
-            if nm.starts_with("recompose") {
+            if nm == "recompose/coeff" {
+                // RecomposeAir::preprocessed_lane_width_for(true): (output_idx, out_mult) + D × (coeff_idx, coeff_mult)
+                format!("{nm}:L:{}:{}", b.exp.d, 2 + 2 * b.exp.d)
+            } else if nm.starts_with("recompose") {
                 format!("{nm}:L:{}:2", b.exp.d)
             } else {
                 let idx = np.iter().position(|e| e["op_type"].as_str() == Some(nm.as_str())).map(|i| i + 3);
@@ -749,11 +881,18 @@ pub fn single_alterations(b: &Base) -> Vec<Alt> {
             l.swap(i, k);
             out.push(set("tables.swap", l));
         }
-        for nm in &names {
+        // relabelled to every other op type the verifier has registered, every op type the code base can name
+        // (all Poseidon1/2 configurations, both recompose layouts) and near-miss strings of the same family
+        let mut retag: Vec<String> = names.clone();
+        retag.extend(crate::c16_manifest::known_op_types(np[i]["op_type"].as_str()));
+        retag.sort();
+        retag.dedup();
+        for nm in &retag {
             if Some(nm.as_str()) != np[i]["op_type"].as_str() {
                 let mut l = np.clone();
                 l[i]["op_type"] = json!(nm);
-                out.push(set("tables.retag", l));
+                // `tables.retag-id`: the ids beyond the registered / legacy ones (kept out of the exhaustive pair loop)
+                out.push(set(if names.contains(nm) { "tables.retag" } else { "tables.retag-id" }, l));
             }
         }
         let r = np[i]["rows"].as_u64().unwrap();
@@ -960,6 +1099,18 @@ fn run_case(acc: &mut Acc, b: &Base, base_verdict: &Outcome, alts: &[Alt], origi
     }
 }
 
+fn absorb_leg(acc: &mut Acc, leg: crate::c16_manifest::Leg) {
+    acc.cases.extend(leg.cases);
+    acc.impl_.extend(leg.impl_);
+    acc.detail.extend(leg.detail);
+    acc.violations.extend(leg.violations);
+    acc.evals += leg.evals;
+    acc.distinct.extend(leg.distinct);
+    for (k, v) in leg.hist {
+        *acc.hist.entry(k).or_default() += v;
+    }
+}
+
 /// The parts of a `BatchStarkProof` that are NOT serialized (`stark_common`: the prover's lookup
 /// contexts and preprocessed data) are prover-supplied all the same when a proof is verified in memory.
 /// A malicious prover strips the lookup contexts (no lookup argument is proven), which unties the tables,
@@ -1059,7 +1210,13 @@ pub fn main(args: &crate::Args) {
             let alts: Vec<Alt> = v["alterations"].as_array().map(|a| a.iter().filter_map(Alt::from_json).collect()).unwrap_or_default();
             let bv = (b.verify)(&b.json);
             let before = acc.violations.len();
-            run_case(&mut acc, &b, &bv, &alts, &format!("corpus:{}", f.file_name().unwrap().to_string_lossy()));
+            if v.get("manifest").is_some() {
+                // a case of the manifest leg: proof alterations + the (altered) manifest
+                let leg = crate::c16_manifest::replay(&b, &bv, &alts, &v, acc.cases.len());
+                absorb_leg(&mut acc, leg);
+            } else {
+                run_case(&mut acc, &b, &bv, &alts, &format!("corpus:{}", f.file_name().unwrap().to_string_lossy()));
+            }
             if acc.violations.len() > before {
                 corpus_reproduced.push(f.file_name().unwrap().to_string_lossy().to_string());
             }
@@ -1151,6 +1308,12 @@ pub fn main(args: &crate::Args) {
             for a in &singles {
                 run_case(&mut acc, &b, &bv, std::slice::from_ref(a), "gen");
             }
+            // manifest leg: VerifierManifest::matches of the derived manifest under every single alteration of
+            // the proof and of the manifest, compensating and sampled pairs; combined with verify_all_tables
+            {
+                let leg = crate::c16_manifest::run(&b, &bv, &singles, pairs.max(20), &mut rng, acc.cases.len());
+                absorb_leg(&mut acc, leg);
+            }
             // round trips of a few altered proofs too (the verdict of an altered proof must
             // also survive serialization)
             for _ in 0..3 {
@@ -1171,8 +1334,19 @@ pub fn main(args: &crate::Args) {
             if all_pairs && first_seed.get(&spec.cfg) == Some(&spec.circuit_seed) {
                 for x in 0..singles.len() {
                     for y in x + 1..singles.len() {
-                        if singles[x].path != singles[y].path {
+                        if singles[x].path != singles[y].path && singles[x].field != "tables.retag-id" && singles[y].field != "tables.retag-id" {
                             run_case(&mut acc, &b, &bv, &[singles[x].clone(), singles[y].clone()], "gen");
+                        }
+                    }
+                }
+                // the extended relabellings take part in sampled pairs only
+                let ext: Vec<&Alt> = singles.iter().filter(|a| a.field == "tables.retag-id").collect();
+                if !ext.is_empty() {
+                    for _ in 0..pairs {
+                        let x = (*rng.pick(&ext)).clone();
+                        let y = rng.pick(&singles).clone();
+                        if x.path != y.path && !x.path.starts_with(&y.path) && !y.path.starts_with(&x.path) {
+                            run_case(&mut acc, &b, &bv, &[x, y], "gen");
                         }
                     }
                 }
